@@ -15,6 +15,7 @@ import (
 	"net/http/httptest"
 	"runtime"
 	"sort"
+	"strconv"
 	"strings"
 	"sync"
 	"sync/atomic"
@@ -62,6 +63,7 @@ type server struct {
 	name      string
 	fns       []fnSpec
 	nmw       int
+	style     string // list filters: alloc (build a new slice) | compact (filter the input in place) | sort (sort the input in place, then compact)
 	roleKey   int
 	keys      []int
 	tools     []entry
@@ -184,10 +186,43 @@ func nonceOf(params any) string {
 func (s *server) middleware(id int) mcp.Middleware {
 	return func(next mcp.HandlerFunc) mcp.HandlerFunc {
 		return func(ctx context.Context, req *mcp.JSONRPCRequest) (mcp.JSONRPCMessage, error) {
-			s.observe(ctx, fmt.Sprintf("mw:%d", id), nonceOf(req.Params))
-			return next(ctx, req)
+			nonce := nonceOf(req.Params)
+			s.observe(ctx, fmt.Sprintf("mw:%d", id), nonce)
+			res, err := next(ctx, req)
+			if id == 1 && slowAfter(nonce) {
+				// post-processing after next() (logging / metrics): the answer is not serialised yet
+				time.Sleep(300 * time.Microsecond)
+			}
+			return res, err
 		}
 	}
+}
+
+// slowAfter: every fourth request lingers in the outermost middleware after next() returned.
+func slowAfter(nonce string) bool {
+	if !strings.HasPrefix(nonce, "tk") || !strings.HasSuffix(nonce, "x") {
+		return false
+	}
+	n, err := strconv.Atoi(nonce[2 : len(nonce)-1])
+	return err == nil && n%4 == 0
+}
+
+// keep filters `in` by name in the server's style; the marker entry is appended to memory of its own.
+func keep[T any](style string, in []*T, name func(*T) string, ok map[string]bool, marker *T) []*T {
+	var kept []*T
+	switch style {
+	case "compact":
+		kept = in[:0]
+	case "sort":
+		sort.SliceStable(in, func(i, j int) bool { return in[i] != nil && in[j] != nil && name(in[i]) < name(in[j]) })
+		kept = in[:0]
+	}
+	for _, e := range in {
+		if e != nil && ok[name(e)] {
+			kept = append(kept, e)
+		}
+	}
+	return append(kept[:len(kept):len(kept)], marker)
 }
 
 const markerPrefix = "zz-obs-"
@@ -215,35 +250,17 @@ func (s *server) admit(ctx context.Context, es []entry) (map[string]bool, string
 
 func (s *server) toolFilter(ctx context.Context, tools []*mcp.Tool) []*mcp.Tool {
 	ok, marker := s.admit(ctx, s.tools)
-	var out []*mcp.Tool
-	for _, t := range tools {
-		if t != nil && ok[t.Name] {
-			out = append(out, t)
-		}
-	}
-	return append(out, mcp.NewTool(marker))
+	return keep(s.style, tools, func(t *mcp.Tool) string { return t.Name }, ok, mcp.NewTool(marker))
 }
 
 func (s *server) promptFilter(ctx context.Context, ps []*mcp.Prompt) []*mcp.Prompt {
 	ok, marker := s.admit(ctx, s.prompts)
-	var out []*mcp.Prompt
-	for _, p := range ps {
-		if p != nil && ok[p.Name] {
-			out = append(out, p)
-		}
-	}
-	return append(out, &mcp.Prompt{Name: marker})
+	return keep(s.style, ps, func(p *mcp.Prompt) string { return p.Name }, ok, &mcp.Prompt{Name: marker})
 }
 
 func (s *server) resourceFilter(ctx context.Context, rs []*mcp.Resource) []*mcp.Resource {
 	ok, marker := s.admit(ctx, s.resources)
-	var out []*mcp.Resource
-	for _, r := range rs {
-		if r != nil && ok[r.Name] {
-			out = append(out, r)
-		}
-	}
-	return append(out, &mcp.Resource{Name: marker, URI: "verif://" + marker})
+	return keep(s.style, rs, func(r *mcp.Resource) string { return r.Name }, ok, &mcp.Resource{Name: marker, URI: "verif://" + marker})
 }
 
 func (s *server) handlerObs(ctx context.Context, nonce string) string {
@@ -294,8 +311,8 @@ func stdEntries(prefix, open string) []entry {
 	return l
 }
 
-func newServer(kind, name string, fns []fnSpec, nmw, roleKey int) (*server, error) {
-	s := &server{kind: kind, name: name, fns: fns, nmw: nmw, roleKey: roleKey,
+func newServer(kind, name string, fns []fnSpec, nmw, roleKey int, style string) (*server, error) {
+	s := &server{kind: kind, name: name, fns: fns, nmw: nmw, roleKey: roleKey, style: style,
 		byNonce: map[string][]*obs{}, bySerial: map[int64]*obs{}, waiters: map[string]chan struct{}{}, claimed: map[int64]int{},
 		tools: stdEntries("t", echoTool), prompts: stdEntries("p", openPrompt), resources: stdEntries("r", openResource)}
 	ks := map[int]bool{roleKey: true}
